@@ -87,6 +87,17 @@ func (v *Vue) evalInclude(ctx VueContext, node *html.Node, vars map[string]any, 
 	// include of itself would recurse without ever reaching the depth limit.
 	childCtx := ctx.WithTemplate(name)
 
+	// A <template> that heads the file with a control directive of its own
+	// (v-if, v-else-if, v-else, v-for) is not the component's root tag but a
+	// conditional or repeated block like anywhere else - with its chain members
+	// and the nodes after it - and is evaluated as such.
+	if len(compDom) > 0 {
+		if root := compDom[0]; root.Type == html.ElementNode && root.Data == "template" &&
+			(helpers.HasAttr(root, "v-if") || helpers.HasAttr(root, "v-else-if") || helpers.HasAttr(root, "v-else") || helpers.HasAttr(root, "v-for")) {
+			return v.evaluate(childCtx, compDom, depth+1)
+		}
+	}
+
 	// A root <template v-once> marks the whole component: like any other marked
 	// element it is emitted by the first include of a render only. (evalTemplate
 	// unwraps the tag, so evaluate never gets to see its v-once.)
